@@ -46,6 +46,10 @@ CLAIMED = {
           "Seeded histories with executing reads running state-mutating bytecode (eth_call, eth_callMany with carry-over/overrides, estimateGas(Many), brc20_balance) and getters; oracles: observation unchanged by each read, equality with a twin that never reads, and key-by-key equality of all RocksDB directories after a final commit. Sampling, not proof.",
           "mineTimestamp masked in stored block rows.",
           "DESIGN.md 4 C10"),
+  "C11": ("exploration", "deterministic simulation of thread interleavings: real handler threads parked at every lock acquire/release (lock seam), seeded scheduler with a writer-preferring RwLock admission model, replayable schedules",
+          "Sets of 2-4 concurrent requests (explorer reads and indexer writes) on instances prepared by seeded histories; every SharedData acquire/release is a scheduling point at which a seeded scheduler releases exactly one thread; a state with no admissible thread is a deadlock, reported with the wait-for description and the decision list that replays it. Seeded search over schedules, not enumeration.",
+          "Only the application locks are modelled; the admission rule is std's futex RwLock policy (reader blocked while a writer is queued). The 5 s wait collapses to an immediate timeout under the paused clock.",
+          "DESIGN.md 4 C11, Appendix B"),
   "C13": ("exploration", "deterministic component simulation against a key -> full-history reference model (seeded op sequences incl. commit/discard/reopen/rollback), plus a bounded exhaustive pass",
           "Seeded op sequences on the real BlockCachedDatabase (5 key types), BlockDatabase and BlockHistoryCacheData over RocksDB on tmpfs, checked step by step against a trivial model: all point reads after every step, range scans complete and ordered, full scans, rollback inside the window right, deeper rollbacks refused or right, <= 11 persisted versions. A 7-letter alphabet is enumerated to depth 5/7 as a supplement. Sampling, not proof.",
           "Window measured from the highest block the table has ever been told about (what pruning is relative to). Component preconditions (monotone block numbers) respected by the generator.",
